@@ -362,6 +362,11 @@ func envStep(root, layout, variant string, st pipeStep, version int) error {
 	case "edit":
 		return os.WriteFile(filepath.Join(pdir(st.Pkg), "types.go"), []byte(pipe.SrcFile(st.Pkg, version, pipe.Imports[st.Pkg], layout, variant)), 0o644)
 	case "adduser":
+		if strings.HasPrefix(st.File, ".#") {
+			// an editor's lock file: a symbolic link that points nowhere - the directory can be listed but not hashed
+			_ = os.Remove(filepath.Join(pdir(st.Pkg), st.File))
+			return os.Symlink(fmt.Sprintf("nobody@nowhere.%d", version), filepath.Join(pdir(st.Pkg), st.File))
+		}
 		return os.WriteFile(filepath.Join(pdir(st.Pkg), st.File), []byte(pipe.UserFileContent(st.Pkg, st.File, version)), 0o644)
 	case "deluser":
 		err := os.Remove(filepath.Join(pdir(st.Pkg), st.File))
